@@ -121,6 +121,25 @@ def generate(prng, tier, index):
           "attrs": prng.random() < 0.3}
     if prng.random() < 0.12:
         sc["label_type"] = prng.choice(("frozenset", "frozenset", "tuple", "str", "mixed"))
+    elif prng.random() < 0.08 and es:
+        # one or two extra vertices labelled by the tuple of an edge's end points / a triangle's vertices, isolated or joined to a member
+        top = max(nodes) + 1
+        adj = {}
+        for a, b in es:
+            adj.setdefault(a, set()).add(b); adj.setdefault(b, set()).add(a)
+        cands = [sorted(e) for e in es]
+        cands += [sorted((a, b, c)) for a, b in es for c in adj[a] & adj[b]][:6]
+        sc["nested"] = {}
+        for i in range(prng.choice((1, 1, 2))):
+            members = prng.choice(cands)
+            if prng.random() < 0.5:
+                members = members[::-1]
+            if members in sc["nested"].values():
+                continue                          # two vertices must not get the same label
+            sc["nested"][str(top + i)] = members
+            sc["nodes"] = sc["nodes"] + [top + i]
+            if prng.random() < 0.5:
+                sc["edges"] = sc["edges"] + [[top + i, prng.choice(members)]]
     if variant == "faults":
         sc["abort_at"] = prng.randrange(0, 8)
         if prng.random() < 0.5:
@@ -442,7 +461,16 @@ def execute(sc, ctx):
         return execute_scale(sc, ctx)
     P = "C10"
     f = label_fn(sc.get("label_type"))
+    if sc.get("nested"):
+        # extra vertices whose LABEL is the tuple of the labels of an edge / a triangle of this very graph (hashable containers
+        # of vertices are legal vertices; anything that takes a container of vertices may mistake them for one vertex)
+        nested = {int(k): tuple(v) for k, v in sc["nested"].items()}
+        f = (lambda v, g=f: nested[v] if v in nested else g(v))
+        ctx.probe("vertex_labelled_by_a_tuple_of_other_vertices")
     inv = {f(v): v for v in sc["nodes"]}
+    if len(inv) != len(sc["nodes"]):
+        from ..simrandom import HarnessError
+        raise HarnessError("scenario maps two vertices to one label")
     if sc.get("label_type"):
         ctx.probe(f"vertex_labels_of_type_{sc['label_type']}")
     G = nx.Graph()
@@ -480,13 +508,14 @@ def execute(sc, ctx):
         if k > 0:
             tag = " (second cover on the same graph)"
             ctx.probe("second_cover_same_graph")
-        if sc.get("label_type") and isinstance(R, nx.Graph):
+        if (sc.get("label_type") or sc.get("nested")) and isinstance(R, nx.Graph):
             try:
                 Gi, Ri = back_to_ints(G, inv), back_to_ints(R, inv)
             except KeyError as e:
                 ctx.violate(f"{P}.same", f"the cover contains a vertex that is not in the graph: {e!r}{tag}")
                 return
-            verify(sc, ctx, Gi, Ri, limit, tag + f" (vertex labels of type {sc['label_type']})", edges=cur)
+            verify(sc, ctx, Gi, Ri, limit, tag + (f" (vertex labels of type {sc['label_type']})" if sc.get("label_type") else
+                                                        f" (vertices {sorted(sc['nested'])} are labelled by the tuples {list(sc['nested'].values())} of other vertices)"), edges=cur)
         else:
             verify(sc, ctx, G, R, limit, tag, edges=cur)
         ctx.result(limit, sorted(d.get("clique", "") for _, _, d in R.edges(data=True)) if isinstance(R, nx.Graph) else "")
